@@ -7,15 +7,26 @@ from props import subfam
 def run(tier, seed, replay=None):
     ck = vlib.Check("C15", tier, seed, "model_checking")
     binary = vlib.build_harness()
+    # exhaustive model of doClose against explicit syncs, the watcher and its goroutines, the distributor and other closers
+    big = dict(Closers="{1,2,3}", NG=2, NE=2, FIXED=True, ORDER='"code"') if tier == "quick" else dict(Closers="{1,2,3}", NG=3, NE=2, FIXED=True, ORDER='"code"')
+    m = vlib.tlc("SubscriberClose", ("sc.cfg", vlib.cfg_text(big, ["NoPanic", "CloseIsFinal"], properties=["QuietAfterClose"])), timeout=3000, tag="c15mc", deadlock=True)
+    ck.add_tlc("SubscriberClose", m, "every interleaving of 3 Close callers with 2 explicit syncs, the watcher, 2-3 announcement goroutines and the distributor: no send on a closed "
+               "channel, Close is final, nothing happens after it returned, no deadlock (TLC deadlock check on)")
+    for name, cc, want in (("pinned doClose (no wait for the distributor) must violate CloseIsFinal", dict(Closers="{1}", NG=1, NE=1, FIXED=False, ORDER='"code"'), "CloseIsFinal"),
+                           ("closing inEvents before asyncWG.Wait must violate NoPanic", dict(Closers="{1}", NG=1, NE=1, FIXED=True, ORDER='"events-first"'), "NoPanic")):
+        v = vlib.tlc("SubscriberClose", ("scv.cfg", vlib.cfg_text(cc, ["NoPanic", "CloseIsFinal"])), workers=2, timeout=600, tag="c15v", deadlock=True)
+        ck.cov["tlc_runs"].append({"name": name, "violated": v.violated})
+        if v.violated != want:
+            raise vlib.Infra("model variant '%s' is no longer refuted (got %s)" % (name, v.violated))
+        shutil.rmtree(v.workdir, ignore_errors=True)
+    shutil.rmtree(m.workdir, ignore_errors=True)
     n = 200 if tier == "quick" else 4000
     lines, wd = subfam.run_family(ck, binary, "close", n, seed, strict=True)
     shutil.rmtree(wd, ignore_errors=True)
     ck.cov["close_returns_checked"] = sum(1 for ln in lines if '"env.close.ret"' in ln)
-    ck.cov["states"] = max(ck.cov["states"], len(lines))
-    ck.cov["transitions"] = max(ck.cov["transitions"], len(lines))
     ck.cov["rule"] = ("seeded random schedules in which one or two concurrent Close calls start at a random point of announce-triggered and explicit syncs, "
                       "listener registration and notification delivery; TLC validates on the trace that when a Close returns no lock is held, and that no block hook, "
                       "lock acquisition or notification delivery follows; afterwards every entry point is called under a 3 s watchdog, a listener registered after "
                       "Close must get a closed channel, and the goroutine dump must contain no frame of the subscriber or its receiver")
-    ck.assumptions += ["the states/transitions counts are those of the trace specification over the recorded events (the shutdown steps are validated on traces, not enumerated exhaustively)"]
+    ck.assumptions += ["the exhaustive model abstracts a sync to one block-hook step and one notification send; the real shutdown interleavings are validated on recorded traces of seeded schedules"]
     return ck
